@@ -982,3 +982,284 @@ pub fn execute(plan: &C10Plan) -> Outcome<C10Plan> {
     out.violation = viol;
     out
 }
+
+// ======================================================================
+// Secondary subject: the copy of the algorithm inlined in decode1090's
+// main(). It can only be run as a process: the same generated histories are
+// written as a JSONL file, the real binary is executed on it, and the history
+// clauses are applied to its standard output. Deterministic: one task, no
+// clock; the "disk" is a plain file written before the process starts.
+
+pub struct Decode1090Proc;
+
+fn scratch_dir() -> String {
+    let d = std::env::var("VERIF_SCRATCH").unwrap_or_else(|_| "/verif/.target/scratch".to_string());
+    let _ = std::fs::create_dir_all(&d);
+    d
+}
+
+impl Scenario for Decode1090Proc {
+    type Plan = C10Plan;
+    fn id(&self) -> &'static str {
+        "C10"
+    }
+    fn kind(&self) -> &'static str {
+        "decode1090"
+    }
+    fn seed_tag(&self) -> String {
+        "C10/decode1090".to_string()
+    }
+    fn runs(&self, tier: Tier) -> u64 {
+        match tier {
+            Tier::Quick => 800,
+            Tier::Thorough => 40_000,
+        }
+    }
+    fn generate(&self, rng: &mut Rng, tier: Tier, idx: u64) -> C10Plan {
+        let mut p = C10.generate(rng, tier, idx);
+        // what does not exist for a file: scheduling, channels, crashes
+        p.stalls.clear();
+        p.consumer_crash_after = None;
+        p.rx_crash_after = vec![None; p.n_rx as usize];
+        p.sched = SchedSpec::fifo();
+        p.flush = false;
+        if p.window_ms == 0 {
+            p.window_ms = 400; // decode1090's default
+        }
+        p
+    }
+    fn execute(&self, plan: &C10Plan) -> Outcome<C10Plan> {
+        execute_decode1090(plan)
+    }
+    fn shrink(&self, p: &C10Plan) -> Vec<C10Plan> {
+        let mut out = Vec::new();
+        let n = p.receptions.len();
+        let mut chunk = n / 2;
+        while chunk >= 1 {
+            let mut i = 0;
+            while i < n {
+                let mut q = p.clone();
+                q.receptions.drain(i..(i + chunk).min(n));
+                out.push(q);
+                i += chunk;
+            }
+            if chunk == 1 {
+                break;
+            }
+            chunk /= 2;
+        }
+        out
+    }
+    fn meta(&self) -> Meta {
+        Meta {
+            level: "exploration",
+            rule: "One run = one generated reception history written as a JSONL file and decoded by the real decode1090 binary (its own inlined copy of the deduplication algorithm, including the end-of-file flush); the conservation, content, window and ordering clauses are applied to its standard output. Distinct = distinct hash of the history (frame index, ms stamp, receiver per line). Non-trivial = the history has equal, decreasing or window-straddling stamps or a re-opened frame AND at least one record was printed.",
+            components: vec![
+                ("decode1090 binary (main(): JSONL reader, inlined deduplication, end-of-file flush, decode_position, JSON output)", "real (separate process)"),
+                ("input file", "stub (written by the driver before the process starts; no I/O faults injected)"),
+            ],
+            assumptions: vec!["output timestamps are compared with a tolerance of 10 µs (JSON text round trip)"],
+            fault_kinds: vec!["nonmonotone_arrival", "duplicate_delivery", "eof_with_open_groups"],
+            probes: vec!["records_printed", "monotone_history", "eof_with_3_open_groups", "reopened_after_expiry"],
+        }
+    }
+    fn sample(&self, p: &C10Plan) -> serde_json::Value {
+        C10.sample(p)
+    }
+}
+
+pub fn execute_decode1090(plan: &C10Plan) -> Outcome<C10Plan> {
+    let mut out = Outcome::new();
+    out.evaluations = 1;
+    let Ok(bin) = std::env::var("VERIF_DECODE1090") else {
+        out.harness_error = Some("VERIF_DECODE1090 (path of the decode1090 binary) is not set".to_string());
+        return out;
+    };
+    let frames: Vec<Vec<u8>> = plan.frames.iter().map(|h| world::unhex(h)).collect();
+    let decodable: Vec<bool> = frames.iter().map(|f| Message::from_bytes((f, 0)).is_ok()).collect();
+    let mut text = String::new();
+    for r in &plan.receptions {
+        let fi = r.frame as usize % frames.len();
+        text.push_str(&format!(
+            "{{\"timestamp\":{},\"frame\":\"{}\",\"metadata\":[{{\"system_timestamp\":{},\"serial\":{},\"name\":\"rx{}\"}}]}}\n",
+            ts_f64(r.ts_us),
+            plan.frames[fi],
+            ts_f64(r.ts_us),
+            r.id,
+            r.rx
+        ));
+    }
+    let mut h = Fnv::new();
+    h.bytes(text.as_bytes());
+    h.u64(plan.window_ms as u64);
+    let path = format!("{}/c10-{:016x}-{:?}.jsonl", scratch_dir(), h.0, std::thread::current().id());
+    if let Err(e) = std::fs::write(&path, &text) {
+        out.harness_error = Some(format!("cannot write {}: {}", path, e));
+        return out;
+    }
+    let res = std::process::Command::new(&bin)
+        .args(["-i", &path, "-d", &plan.window_ms.to_string()])
+        .output();
+    let _ = std::fs::remove_file(&path);
+    let o = match res {
+        Ok(o) => o,
+        Err(e) => {
+            out.harness_error = Some(format!("cannot run {}: {}", bin, e));
+            return out;
+        }
+    };
+    let mut viol: Option<Violation> = None;
+    let mut set = |v: Violation| {
+        if viol.is_none() {
+            viol = Some(v);
+        }
+    };
+    if !o.status.success() {
+        let err = String::from_utf8_lossy(&o.stderr);
+        set(Violation::new(
+            "c10.panic",
+            "decode1090-exit",
+            format!("decode1090 exited with {:?}: {}", o.status.code(), err.lines().find(|l| l.contains("panicked")).unwrap_or("").to_string()),
+        ));
+    }
+    // parse the records
+    struct Rec {
+        frame: Vec<u8>,
+        ts: f64,
+        ids: Vec<u32>,
+    }
+    let mut recs: Vec<Rec> = Vec::new();
+    for line in String::from_utf8_lossy(&o.stdout).lines() {
+        let Ok(v) = serde_json::from_str::<serde_json::Value>(line) else { continue };
+        let frame = world::unhex(v["frame"].as_str().unwrap_or(""));
+        let ts = v["timestamp"].as_f64().unwrap_or(0.0);
+        let ids = v["metadata"].as_array().map(|a| a.iter().map(|m| m["serial"].as_u64().unwrap_or(u64::MAX) as u32).collect()).unwrap_or_default();
+        recs.push(Rec { frame, ts, ids });
+    }
+    out.count("records_printed", recs.len() as u64);
+    let by_id: HashMap<u32, &Reception> = plan.receptions.iter().map(|r| (r.id, r)).collect();
+    let pos_of: HashMap<u32, usize> = plan.receptions.iter().enumerate().map(|(i, r)| (r.id, i)).collect();
+    let w = plan.window_ms as u64;
+    // conservation
+    let mut seen: HashMap<u32, usize> = HashMap::new();
+    for (k, e) in recs.iter().enumerate() {
+        for id in &e.ids {
+            if !by_id.contains_key(id) {
+                set(Violation::new("c10.1-conservation", "invented", format!("decode1090 record #{} carries reception id {} that is not in the file", k, id)));
+            } else if let Some(p) = seen.insert(*id, k) {
+                set(Violation::new("c10.1-conservation", "duplicated", format!("reception id {} appears in decode1090 records #{} and #{}", id, p, k)));
+            }
+        }
+    }
+    for r in &plan.receptions {
+        let fi = r.frame as usize % frames.len();
+        if decodable[fi] && !seen.contains_key(&r.id) && o.status.success() {
+            set(Violation::new("c10.1-conservation", "lost", format!("decodable reception id {} (frame#{}) is in the file but in no record printed by decode1090", r.id, fi)));
+            break;
+        }
+    }
+    // content
+    let mut per_frame: BTreeMap<usize, Vec<u32>> = BTreeMap::new();
+    for r in &plan.receptions {
+        per_frame.entry(r.frame as usize % frames.len()).or_default().push(r.id);
+    }
+    let mut next_in_frame: BTreeMap<usize, usize> = BTreeMap::new();
+    for (k, e) in recs.iter().enumerate() {
+        if e.ids.is_empty() || !e.ids.iter().all(|id| by_id.contains_key(id)) {
+            continue;
+        }
+        let first = by_id[&e.ids[0]];
+        let fi = first.frame as usize % frames.len();
+        if e.frame != frames[fi] || !e.ids.iter().all(|id| by_id[id].frame as usize % frames.len() == fi) {
+            set(Violation::new("c10.2-content", "frame-mismatch", format!("decode1090 record #{} mixes frames", k)));
+            continue;
+        }
+        let start = *next_in_frame.get(&fi).unwrap_or(&0);
+        let expect: Vec<u32> = per_frame[&fi].iter().skip(start).take(e.ids.len()).copied().collect();
+        if expect != e.ids {
+            let mut sorted = e.ids.clone();
+            sorted.sort_by_key(|id| pos_of[id]);
+            set(Violation::new(
+                "c10.2-content",
+                if sorted != e.ids { "member-order" } else { "not-contiguous" },
+                format!("decode1090 record #{} of frame#{} lists receptions {:?}; that frame's lines from position {} are {:?}", k, fi, e.ids, start, expect),
+            ));
+        }
+        next_in_frame.insert(fi, start + e.ids.len());
+        if (e.ts - ts_f64(first.ts_us)).abs() > 1e-5 {
+            set(Violation::new(
+                "c10.2-content",
+                "timestamp-not-first-arrival",
+                format!("decode1090 record #{} has timestamp {:.6}, its first member (id {}) is stamped {:.6}", k, e.ts, first.id, ts_f64(first.ts_us)),
+            ));
+        }
+        if !decodable[fi] {
+            set(Violation::new("c10.3-undecodable", "emitted", format!("decode1090 printed a record for undecodable frame {}", plan.frames[fi])));
+        }
+    }
+    // window and order, monotone histories
+    let stamps: Vec<u64> = plan.receptions.iter().map(|r| r.ts_us).collect();
+    let monotone = stamps.windows(2).all(|x| x[0] <= x[1]);
+    if monotone {
+        out.count("monotone_history", 1);
+        let mut last_first: BTreeMap<usize, u64> = BTreeMap::new();
+        let mut prev: Option<u64> = None;
+        for (k, e) in recs.iter().enumerate() {
+            let Some(first) = e.ids.first().and_then(|i| by_id.get(i)) else { continue };
+            let fi = first.frame as usize % frames.len();
+            let fms = ms_of(first.ts_us);
+            if let Some(p) = last_first.get(&fi) {
+                out.count("reopened_after_expiry", 1);
+                if fms < p + w {
+                    set(Violation::new("c10.4-window", "same-frame-closer-than-window", format!("decode1090 records of frame#{} have first arrivals at {} ms and {} ms, window {} ms", fi, p, fms, w)));
+                }
+            }
+            last_first.insert(fi, fms);
+            if let Some(p) = prev {
+                if fms < p {
+                    set(Violation::new("c10.4-window", "out-of-first-arrival-order", format!("decode1090 record #{} (first arrival {} ms) was printed after a record with first arrival {} ms", k, fms, p)));
+                }
+            }
+            prev = Some(fms);
+        }
+    } else {
+        out.count("nonmonotone_arrival", 1);
+    }
+    // open groups at end of file (flush path)
+    if let Some(last) = stamps.iter().max() {
+        let mut firsts: BTreeMap<usize, u64> = BTreeMap::new();
+        let mut open = 0;
+        for e in recs.iter() {
+            if let Some(first) = e.ids.first().and_then(|i| by_id.get(i)) {
+                firsts.insert(first.frame as usize, ms_of(first.ts_us));
+                if ms_of(first.ts_us) + w > ms_of(*last) {
+                    open += 1;
+                }
+            }
+        }
+        out.count("eof_with_open_groups", (open > 0) as u64);
+        out.count("eof_with_3_open_groups", (open >= 3) as u64);
+    }
+    if plan.receptions.windows(2).any(|x| x[0].frame == x[1].frame && x[0].rx == x[1].rx) {
+        out.count("duplicate_delivery", 1);
+    }
+    let mut sig = Fnv::new();
+    for r in &plan.receptions {
+        sig.u64(((r.frame as u64) << 48) ^ (ms_of(r.ts_us) << 8) ^ r.rx as u64);
+    }
+    sig.u64(w);
+    out.sigs.push(sig.0);
+    let shaped = !monotone || stamps.windows(2).any(|x| ms_of(x[0]) == ms_of(x[1]));
+    if shaped && !recs.is_empty() {
+        out.nontrivial_sigs.push(sig.0);
+    }
+    out.log_hash = {
+        let mut f = Fnv::new();
+        f.bytes(&o.stdout);
+        f.u64(viol.is_some() as u64);
+        f.0
+    };
+    out.steps = plan.receptions.len() as u64;
+    out.violation = viol;
+    out
+}
